@@ -37,6 +37,12 @@ func (c *Clause) HasProp(p string) bool {
 	return false
 }
 
+type GhostAdd struct {
+	Set  string
+	Expr Expr
+	Text string
+}
+
 // ArgFrom: every call of Callee passes, as argument Arg, the result of a call of Producer made in the same function.
 type ArgFrom struct {
 	Props            []string
@@ -133,6 +139,8 @@ type FuncContract struct {
 	CallsAs  map[string]string // source text of callee expr -> contract key
 	Logicals []QVar
 	Lets     []*LetDef // names defined from the parameters at entry
+	GhostSets []string            // ghost sets of strings declared (empty at entry) by this function
+	GhostAdds []*GhostAdd         // callee side: after the preconditions, add a value to a ghost set of the caller
 	Across   map[string][]*Clause // invariants over locals that hold across calls of the named callee (callbacks preserve them)
 	OnWrite  map[string][]*Clause // predicates over `value` for every write into the described map
 	ArgFrom  []*ArgFrom
@@ -225,7 +233,7 @@ var tagRe = regexp.MustCompile(`^\[([^\]]*)\]\s*`)
 var labelRe = regexp.MustCompile(`^([A-Za-z_][A-Za-z0-9_\-]*):\s+`)
 var headRe = regexp.MustCompile(`^(func|iface|sig|extern|spec|globalinv|atomicfield)\s+(.*)$`)
 var clauseKw = map[string]bool{"returns": true, "safety": true, "requires": true, "ensures": true, "modifies": true, "writes": true,
-	"loop": true, "let": true, "across": true, "onwrite": true, "argfrom": true, "inline": true, "trusted": true, "pure": true, "calls": true, "logical": true, "opaque": true, "recovered": true, "canon": true, "logged": true, "noalloc": true}
+	"loop": true, "let": true, "across": true, "ghostset": true, "ghostadd": true, "onwrite": true, "argfrom": true, "inline": true, "trusted": true, "pure": true, "calls": true, "logical": true, "opaque": true, "recovered": true, "canon": true, "logged": true, "noalloc": true}
 
 func parseTags(s string) (props []string, profile string, rest string) {
 	m := tagRe.FindStringSubmatch(s)
@@ -525,6 +533,18 @@ func (cs *ContractSet) addClause(fc *FuncContract, t, file string, line int) err
 			}
 			fc.OnWrite[c.Label] = append(fc.OnWrite[c.Label], c)
 		}
+	case "ghostset":
+		fc.GhostSets = append(fc.GhostSets, splitNames(rest)...)
+	case "ghostadd":
+		parts := strings.SplitN(strings.TrimSpace(rest), " ", 2)
+		if len(parts) != 2 {
+			return fmt.Errorf("%s:%d: ghostadd SET expr", file, line)
+		}
+		ex, err := ParseExpr(parts[1])
+		if err != nil {
+			return fmt.Errorf("%s:%d: %v", file, line, err)
+		}
+		fc.GhostAdds = append(fc.GhostAdds, &GhostAdd{Set: parts[0], Expr: ex, Text: parts[1]})
 	case "argfrom":
 		props, _, r := parseTags(rest)
 		parts := strings.Fields(r)
